@@ -9,7 +9,7 @@ evaluation give bit-identical results by construction (selfcheck() verifies).
 import numpy as np
 
 FAMILIES = ['gauss', 'rotgauss', 'twomode', 'banana', 'halfspace', 'stairs',
-            'wrap', 'flat']
+            'wrap', 'flat', 'ring']
 BLOBS = ['none', 'float', 'int', 'two', 'struct', 'multi_f32', 'array']
 PRIORS = ['fn', 'fn_inplace', 'obj', 'obj_array', 'fn_dict']
 
@@ -98,13 +98,26 @@ def _ll_wrap(cols, p):
     return acc * -0.5
 
 
+def _ll_ring(cols, p):
+    # thin ring in the first two coordinates: bounds that are not nested
+    dx = (cols[0] - p['mu'][0]) / p['rad']
+    dy = (cols[1] - p['mu'][1]) / p['rad']
+    r = np.sqrt(dx * dx + dy * dy)
+    d = (r - 1.0) / p['thick']
+    acc = d * d
+    for c, m, s in zip(cols[2:], p['mu'][2:], p['sig'][2:]):
+        e = (c - m) / s
+        acc = acc + e * e
+    return acc * -0.5
+
+
 def _ll_flat(cols, p):
     return cols[0] * 0.0 + p['value']
 
 
 _LL = dict(gauss=_ll_gauss, rotgauss=_ll_rotgauss, twomode=_ll_twomode,
            banana=_ll_banana, halfspace=_ll_halfspace, stairs=_ll_stairs,
-           wrap=_ll_wrap, flat=_ll_flat)
+           wrap=_ll_wrap, flat=_ll_flat, ring=_ll_ring)
 
 BLOB_DTYPE_USER = {
     'none': None, 'float': None, 'int': None, 'two': None,
@@ -321,15 +334,43 @@ class PriorFn:
 
 
 def make_prior_obj(lo, hi, extra=None):
-    """nautilus.Prior with uniform ranges (and optional fixed/linked keys)."""
+    """nautilus.Prior with uniform ranges; `extra` is a declaration layout:
+    a list of ['free', i] / ['fixed', key, value] / ['link', key, target] in
+    declaration order (fixed and linked keys anywhere between the free
+    ones)."""
     from nautilus import Prior
     prior = Prior()
-    for i, k in enumerate(keys_for(len(lo))):
-        prior.add_parameter(k, dist=(float(lo[i]), float(hi[i])))
-    if extra:
-        prior.add_parameter('fixed_c', dist=2.5)
-        prior.add_parameter('link_0', dist='p0')
+    keys = keys_for(len(lo))
+    if not extra:
+        extra = [['free', i] for i in range(len(lo))]
+    for e in extra:
+        if e[0] == 'free':
+            i = e[1]
+            prior.add_parameter(keys[i], dist=(float(lo[i]), float(hi[i])))
+        elif e[0] == 'fixed':
+            prior.add_parameter(e[1], dist=e[2])
+        else:
+            prior.add_parameter(e[1], dist=e[2])
     return prior
+
+
+def draw_prior_layout(rng, n_dim):
+    layout = [['free', i] for i in range(n_dim)]
+    if rng.random() < 0.5:
+        return layout
+    keys = keys_for(n_dim)
+    n_extra = rng.choice([1, 2, 3])
+    for j in range(n_extra):
+        pos = rng.randrange(0, len(layout) + 1)
+        declared = [(keys[e[1]] if e[0] == 'free' else e[1])
+                    for e in layout[:pos]]
+        if declared and rng.random() < 0.6:
+            layout.insert(pos, ['link', 'link_{}'.format(j),
+                                rng.choice(declared)])
+        else:
+            layout.insert(pos, ['fixed', 'fixed_{}'.format(j),
+                                rng.choice([2.5, -1.0, 0])])
+    return layout
 
 
 def phys_rows_from_posterior(points, n_dim, as_dict_return):
@@ -357,7 +398,8 @@ def draw_lik_spec(rng, n_dim, family=None, blob=None, prior=None,
     if family is None:
         family = rng.choice(['gauss', 'gauss', 'rotgauss', 'twomode',
                              'twomode', 'banana', 'banana', 'halfspace',
-                             'stairs', 'wrap', 'flat'] if periodic_ok else
+                             'stairs', 'wrap', 'flat', 'ring', 'ring']
+                            if periodic_ok else
                             ['gauss', 'rotgauss', 'twomode', 'banana',
                              'halfspace', 'stairs'])
     if blob is None:
@@ -415,9 +457,16 @@ def draw_lik_spec(rng, n_dim, family=None, blob=None, prior=None,
         p['mu'][0] = rng.choice([0.0, 0.02, 0.97])
     elif family == 'flat':
         p = dict(value=rng.choice([0.0, -3.5]))
+    elif family == 'ring':
+        p = dict(mu=centre(0.45, 0.55), sig=widths(0.08, 0.2),
+                 rad=min(w[0], w[1]) * rng.uniform(0.25, 0.35),
+                 thick=rng.choice([0.05, 0.1, 0.2]))
     arg = 'dict' if prior in ('obj', 'fn_dict') else 'array'
-    return dict(family=family, n_dim=n_dim, params=p, blob=blob, arg=arg,
+    spec = dict(family=family, n_dim=n_dim, params=p, blob=blob, arg=arg,
                 prior=prior, vectorized=bool(vectorized), lo=lo, hi=hi)
+    if prior in ('obj', 'obj_array'):
+        spec['prior_extra'] = draw_prior_layout(rng, n_dim)
+    return spec
 
 
 def build_client(spec):
